@@ -309,4 +309,87 @@ theorem inplace_stage_counterexample :
 chaining the batches read back gives the sequence that was written, for every batch size -/
 theorem load_save_batches (n : Nat) (xs : List Item) : loadBatches (saveBatches n xs) = xs := load_save_batches' n xs
 
+/-! ## Phase 4 -/
+
+/-- FITTING-WINDOW FILTERS.  A stage that is `Model/C11`'s Scale / Impute (or Noise as a scan from its seed) applied to the
+CONTENT of the contexts, appended to a consistent chain, delivers that function of the upstream's denotation before and after
+any read session (complete, abandoned after `k`, never started): the window is taken from what `read()` of the upstream
+gives on THIS call, nothing of an earlier read survives.  `dec`/`enc`, the statistics configuration and the laziness are arbitrary. -/
+theorem fit_stage_reads (sd : List Rat → Rat) (dec : List Item → C11.Ctxs) (enc : C11.Ctxs → List Item) (s : FitStage) (par : List Nat)
+    (u : List Item) (ns : List Node) (h : chainOK u ns) (d : Demand) :
+    viewN u (ns ++ [.pure (fitPure sd dec enc s par)]) = enc (s.apply sd (dec (denN u ns))) ∧
+    viewN u (touchN u (ns ++ [.pure (fitPure sd dec enc s par)]) d).1 = enc (s.apply sd (dec (denN u ns))) :=
+  fit_stage_reads' sd dec enc s par u ns h d
+
+/-- … and for every CHAIN of such stages behind any consistent chain (caches, shuffles, other filters): the contents a read
+delivers are the closed form `fitDen` of the upstream's contents, the first time and after any session
+(`second_read_same` for pipelines with fitting windows; `hde`: interning contents is faithful) -/
+theorem fit_pipeline_reads (sd : List Rat → Rat) (dec : List Item → C11.Ctxs) (enc : C11.Ctxs → List Item) (hde : ∀ c, dec (enc c) = c)
+    (u : List Item) (ns : List Node) (h : chainOK u ns) (ss : List (FitStage × List Nat)) (d : Demand) :
+    dec (viewN u (ns ++ ss.map (fun s => Node.pure (fitPure sd dec enc s.1 s.2)))) = fitDen sd (ss.map (·.1)) (dec (denN u ns)) ∧
+    dec (viewN u (touchN u (ns ++ ss.map (fun s => Node.pure (fitPure sd dec enc s.1 s.2))) d).1) = fitDen sd (ss.map (·.1)) (dec (denN u ns)) :=
+  fit_pipeline_reads' sd dec enc hde u ns h ss d
+
+/-- every read through the real stage (a fresh upstream iterator per call) is the demanded prefix of ONE sequence -/
+theorem fit_window_fresh_each_read (sd : List Rat → Rat) (s : FitStage) (c : C11.Ctxs) (ds : List Demand) :
+    fitReadsFresh sd s c ds = ds.map (fun d => demTake d (s.apply sd c)) := fit_reads_fresh' sd s c ds
+
+/-- a stage that kept its upstream iterator between reads would agree with it only until something has been pulled … -/
+theorem fit_kept_iterator_partial (sd : List Rat → Rat) (s : FitStage) (c : C11.Ctxs) (d : Demand) (n : Nat) :
+    fitReadsKept sd s c 0 (List.replicate n .none ++ [d]) = fitReadsFresh sd s c (List.replicate n .none ++ [d]) :=
+  fit_kept_unread' sd s c d n
+
+def denseRows : C11.Ctxs → List (List C11.Val)
+  | .dense r => r
+  | _ => []
+
+/-- … forced: `Scale(shift="min", scale=1, using=2)` over contexts [1],[3],[5],[7]; a read abandoned after one item, then a
+complete read.  Real stage: the second read is [0],[2],[4],[6].  Kept iterator: it fits on what is left ([5],[7]) and
+delivers [0],[2] -/
+theorem fit_kept_iterator_counterexample :
+    (fitReadsFresh (fun _ => 1) (.scale ⟨⟨.min, .num 1, some 2⟩, "context"⟩) (.dense [[.num 1], [.num 3], [.num 5], [.num 7]]) [.pull 1, .all]).map denseRows
+      = [[[.num 0]], [[.num 0], [.num 2], [.num 4], [.num 6]]] ∧
+    (fitReadsKept (fun _ => 1) (.scale ⟨⟨.min, .num 1, some 2⟩, "context"⟩) (.dense [[.num 1], [.num 3], [.num 5], [.num 7]]) 0 [.pull 1, .all]).map denseRows
+      = [[[.num 0]], [[.num 0], [.num 2]]] := by
+  refine ⟨by decide +kernel, by decide +kernel⟩
+
+/-- ALIASING, every stage.  For EVERY pipeline built from stages that put their results into new objects (`alloc F`, `F` any
+function of all the values the stage is handed: row-wise maps, Scale / Impute with their window, Noise's scan, …), hand the
+same objects on (`share`) or hand on a selection of them (`pick`: Take, Slice, Shuffle, Sort, Where, Reservoir, Cache replay),
+a read leaves every object that existed before it — held by the source, a cache or the caller — exactly as it was -/
+theorem no_stage_writes_input_general {α : Type} (d : α) (ss : List (GStage α)) (h : ∀ s ∈ ss, s.writesInput = false) (st : List α) (held : List Nat) :
+    (greadOnce d ss st held).1.take st.length = st := gno_stage_writes_input' d ss h st held
+
+/-- … and the next read of the same held objects delivers the same values -/
+theorem second_read_same_general {α : Type} (d : α) (ss : List (GStage α)) (h : ∀ s ∈ ss, s.writesInput = false) (st : List α) (held : List Nat)
+    (hv : ∀ a ∈ held, a < st.length) :
+    gdeliver d (greadOnce d ss (greadOnce d ss st held).1 held) = gdeliver d (greadOnce d ss st held) :=
+  gsecond_read_same' d ss h st held hv
+
+/-- Scale / Impute / Noise as they are (`FitStage.toG`) never write into what they are handed, so both theorems apply to every
+pipeline that contains them -/
+theorem fit_stages_do_not_write (sd : List Rat → Rat) (s : FitStage) : (s.toG sd).writesInput = false := fit_toG_no_write sd s
+
+/-- what a sharing / selecting stage delivers are objects it was handed (identity, not only equality) -/
+theorem pick_delivers_held_objects {α : Type} (d : α) (s : GStage α) (hs : s = .share ∨ ∃ sel, s = .pick sel) (st : List α) (as : List Nat) :
+    ∀ a ∈ (s.run d (st, as)).2, a ∈ as := gpick_delivers_held d s hs st as
+
+example : ∀ s ∈ [GStage.share, GStage.pick (fun n => (List.range n).reverse), GStage.alloc (List.map (· * 2))], s.writesInput = false := by decide
+example : greadOnce 0 [.share, .pick (fun n => (List.range n).reverse), .alloc (List.map (· * 2))] [5, 7] [0, 1] = ([5, 7, 14, 10], [2, 3]) := by decide
+example : identityPattern 2 (greadOnce 0 [.share, .pick (fun n => (List.range n).reverse)] [5, 7] [0, 1]).2 = [some 1, some 0] := by decide
+
+/-- forced hypothesis, on the new stages: `Scale(shift=1, scale=2)` written back into the contexts a cache handed out —
+the held contexts change and the second read is scaled twice -/
+theorem fit_inplace_counterexample :
+    (greadOnce [] [.share, FitStage.toGInPlace (fun _ => 1) (.scale ⟨⟨.num 1, .num 2, none⟩, "context"⟩)] [[.num 1, .num 3], [.num 2, .num 0]] [0, 1]).1
+      = [[.num 4, .num 8], [.num 6, .num 2]] ∧
+    gdeliver [] (greadOnce [] [.share, FitStage.toGInPlace (fun _ => 1) (.scale ⟨⟨.num 1, .num 2, none⟩, "context"⟩)]
+      (greadOnce [] [.share, FitStage.toGInPlace (fun _ => 1) (.scale ⟨⟨.num 1, .num 2, none⟩, "context"⟩)] [[.num 1, .num 3], [.num 2, .num 0]] [0, 1]).1 [0, 1])
+      = [[.num 10, .num 18], [.num 14, .num 6]] ∧
+    gdeliver [] (greadOnce [] [.share, FitStage.toG (fun _ => 1) (.scale ⟨⟨.num 1, .num 2, none⟩, "context"⟩)]
+      (greadOnce [] [.share, FitStage.toG (fun _ => 1) (.scale ⟨⟨.num 1, .num 2, none⟩, "context"⟩)] [[.num 1, .num 3], [.num 2, .num 0]] [0, 1]).1 [0, 1])
+      = [[.num 4, .num 8], [.num 6, .num 2]] := by
+  refine ⟨by decide +kernel, by decide +kernel, by decide +kernel⟩
+
+
 end Coba.C04
